@@ -145,6 +145,8 @@ def run(ctx):
     for _ in range(100000 if thorough else 3000):
         src = hexs(rng.choice([rng.bytes(rng.range(0, 12)), bytes([0, 0, 0x80 >> rng.below(8)]) + rng.bytes(rng.range(0, 6)),
                                rng.bytes(rng.range(0, 3)) + bytes([0, 0, 1]) + rng.bytes(2)]))
+        if rng.below(3) == 0:
+            src += "@%d" % (1 + rng.below(1000000))      # the source hands its bytes out in short reads of 1..3 bytes
         cases.append((src, random_tree(rng, 0, alpha)))
     p = ctx.path("reader.cases")
     with open(p, "w") as f:
@@ -158,7 +160,7 @@ def run(ctx):
         ti = io[i].split(" ")[1:]
         tm = mo[i].split(" ")[1:]
         flat = not any(o[0] in "TULGVM" for o in ops)
-        want = spec_check(src, ti, ops) if flat else None
+        want = spec_check(src.split("@")[0], ti, ops) if flat else None
         for o in ops:
             kinds[o.split(":")[0]] = kinds.get(o.split(":")[0], 0) + 1
         if any(t == "panic" for t in ti):
@@ -184,7 +186,7 @@ def run(ctx):
     ctx.cov["op_kinds"] = kinds
     ctx.count("reader-ops (public H263Reader API vs the concrete-reader model; flat sequences also vs an independent bit-list reader)",
               len(cases), nontriv, sample={"source_hex": cases[n_exh + 1][0], "ops": cases[n_exh + 1][1][:12]},
-              note="%d bounded-exhaustive cases (all sequences of length <= 2%s over a %d-letter alphabet: 5 types x widths %s x peek/read/signed, skips, u8, VLC, UMV, start code, commit) + %d random trees with nested transactions, unions, look-aheads and source growth" %
+              note="%d bounded-exhaustive cases (all sequences of length <= 2%s over a %d-letter alphabet: 5 types x widths %s x peek/read/signed, skips, u8, VLC, UMV, start code, commit) + %d random trees with nested transactions, unions, look-aheads and source growth, a third of them over a source that hands out short reads" %
               (n_exh, " and <= 3 on the reduced alphabet" if thorough else "", len(alpha), WIDTHS, len(cases) - n_exh))
     ctx.cov["rule"] = "non-trivial = at least one successful and one failed operation in the sequence; distinct by (source, ops)"
     if len(broken) > 3:
